@@ -25,6 +25,10 @@ def obound(f):
         return "None"
 
 
+PHANTOM_BODY = {"t": "G", "input": [{"t": "I"}], "output": [], "runtime_reqs": []}
+PHANTOM_SIG = {"params": [{"tp": "BoundedNat", "bound": None}], "body": PHANTOM_BODY}
+
+
 class C05(fw.Prop):
     id = "C05"
     props_file = "props/C05.v"
@@ -33,7 +37,8 @@ class C05(fw.Prop):
     shard = 150
     rule = ("grammar-based abstract terms built with the public constructors; non-trivial = the term contains an "
             "extension type / sugar class / nested sum / function type, or is a foreign serial term with an omitted "
-            "default or permuted keys; every operation put on a node of a HUGR that goes through Hugr.to_json / load_json")
+            "default or permuted keys; every operation put on a node of a HUGR that goes through Hugr.to_json / load_json; "
+            "foreign operations and documents written by hand (no library encoder involved) with coinciding attributes")
     trusted = ["pydantic: JSON text <-> serial models (monitored per case: validate(dump(s)) == s)",
                "fail-closed walkers of pydantic instances and API objects (harness/c05terms.py)"]
     assumptions = ["well-formed terms: indices, sizes and tags are non-negative; names are strings"]
@@ -86,6 +91,27 @@ class C05(fw.Prop):
                 {"parent": 0, "op": "Const", "v": {"v": "Extension", "extensions": [], "typ": {"t": "Q"},
                                                    "value": {"c": "K", "v": None}}}],
                 "edges": [], "metadata": [None, {"k": None}], "encoder": None}},
+            # seeded C05-e: Call / LoadFunction of a polymorphic function whose type parameter does not occur in the body of
+            # its signature (instantiation == body, type arguments not empty): the decoder dropped the type arguments.
+            # Foreign serial operations written by hand ...
+            {"kind": "sop", "j": {"parent": 0, "op": "Call", "func_sig": PHANTOM_SIG, "type_args": [{"tya": "BoundedNat", "n": 3}],
+                                  "instantiation": PHANTOM_BODY}},
+            {"kind": "sop", "j": {"parent": 3, "op": "LoadFunction", "func_sig": PHANTOM_SIG,
+                                  "type_args": [{"tya": "BoundedNat", "n": 7}], "instantiation": PHANTOM_BODY}},
+            # ... a whole foreign document: declaration, main, the call wired to both
+            {"kind": "doc", "j": {"version": "live", "nodes": [
+                {"parent": 0, "op": "Module"},
+                {"parent": 0, "op": "FuncDecl", "name": "phantom", "signature": PHANTOM_SIG},
+                {"parent": 0, "op": "FuncDefn", "name": "main", "signature": {"params": [], "body": PHANTOM_BODY}},
+                {"parent": 2, "op": "Input", "types": [{"t": "I"}]}, {"parent": 2, "op": "Output", "types": []},
+                {"parent": 2, "op": "Call", "func_sig": PHANTOM_SIG, "type_args": [{"tya": "BoundedNat", "n": 3}],
+                 "instantiation": PHANTOM_BODY}],
+                "edges": [[[3, 0], [5, 0]], [[1, 0], [5, 1]], [[3, None], [5, None]]]}},
+            # ... and the same operations asked of the public constructors, alone and on a node of a HUGR
+            {"kind": "op", "o": ["Call", [[["Nat", None]], [[["UnitSum", 2]], [["UnitSum", 2]], []]],
+                                 [[["UnitSum", 2]], [["UnitSum", 2]], []], [["N", 7]]]},
+            {"kind": "hop", "o": ["LoadFunc", [[["Type", "A"], ["Nat", 5]], [[["USize"]], [], []]], [[["USize"]], [], []],
+                                  [["T", ["Qubit"]], ["N", 1]]]},
         ]
 
     def generate(self, rng, tier, ctx):
@@ -146,6 +172,18 @@ class C05(fw.Prop):
         # few children, metadata with nulls inside
         for _ in range(60 * k):
             cases.append({"kind": "doc", "j": O.gen_jdoc(rng)})
+        # seeded round 3: foreign operations and documents written by hand (no library object, constructor or encoder
+        # between the random choices and the JSON), attributes of one operation coinciding with each other; and the same
+        # coincidences through the public constructors.  Drawn after every older stream.
+        for kind in O.JOP_KINDS:
+            for _ in range((12 if kind in ("Call", "LoadFunction") else 4) * k):
+                cases.append({"kind": "sop", "j": O.gen_jop_direct(rng, kind)})
+        for _ in range(30 * k):
+            cases.append({"kind": "doc", "j": O.gen_jdoc_direct(rng)})
+        for _ in range(40 * k):
+            cases.append({"kind": "doc", "j": O.gen_jcalldoc(rng)})
+        for _ in range(60 * k):
+            cases.append({"kind": rng.choice(["op", "hop"]), "o": O.gen_op_coinc(rng)})
         import glob, os
         for f in sorted(glob.glob(os.path.join(fw.REPO, "resources", "test", "*.json")) +
                         glob.glob(os.path.join(fw.REPO, "hugr-core", "src", "hugr", "serialize", "upgrade", "testcases", "*.json"))):
@@ -262,7 +300,8 @@ class C05(fw.Prop):
             if r0[0] == "raised":
                 return {"unbuildable": r0[1]}
             op = r0[1]
-            o = {"o": O.lit_op_obj(op, tab), "f1": O.facts_lit(op), "k1": O.kinds_lit(op)}
+            # a polymorphic Call / LoadFunc is the operation as requested from the constructor (which keeps what it is given)
+            o = {"o": O.requested_call_lit(case["o"]) or O.lit_op_obj(op, tab), "f1": O.facts_lit(op), "k1": O.kinds_lit(op)}
             r = guard(lambda: op._to_serial(Node(7)))
             if r[0] == "raised":
                 return {**o, "tab": tab.lit(), "raised": r[1]}
@@ -281,7 +320,8 @@ class C05(fw.Prop):
             if r0[0] == "raised":
                 return {"unbuildable": r0[1]}
             op = r0[1]
-            o = {"o": O.lit_op_obj(op, tab), "f1": O.facts_lit(op), "k1": O.kinds_lit(op)}
+            # a polymorphic Call / LoadFunc is the operation as requested from the constructor (which keeps what it is given)
+            o = {"o": O.requested_call_lit(case["o"]) or O.lit_op_obj(op, tab), "f1": O.facts_lit(op), "k1": O.kinds_lit(op)}
             r = guard(lambda: op._to_serial(Node(7)))
             if r[0] == "raised":
                 return {**o, "tab": tab.lit(), "raised": r[1]}
